@@ -54,7 +54,7 @@ def _scene(name):
                                         detect_sources)
     if name in _cache:
         return _cache[name]
-    if name == 'mixed':
+    if name in ('mixed', 'mixed-kron3'):
         yy, xx = np.mgrid[:40, :44]
         img = np.zeros((40, 44))
         for (x, y, a, sx, sy, t) in [(10, 9, 50, 2.0, 1.2, 0.3),
@@ -77,10 +77,13 @@ def _scene(name):
     err = (0.1 + 0.002 * np.arange(img.shape[1])[None, :] + 0.003 * np.arange(img.shape[0])[:, None])
     bkg = (0.01 + 0.0003 * np.arange(img.shape[1])[None, :] + 0.0002 * np.arange(img.shape[0])[:, None])
 
+    # 'mixed-kron3': a minimum circular Kron radius that the small source hits
+    kp = dict(kron_params=(2.5, 0.1, 3.0)) if name == 'mixed-kron3' else {}
+
     def make():
         return SourceCatalog(img, SegmentationImage(segm.data.copy()),
                              error=err, background=bkg, mask=mask,
-                             localbkg_width=3, progress_bar=False)
+                             localbkg_width=3, progress_bar=False, **kp)
     _cache[name] = make
     return make
 
@@ -337,7 +340,7 @@ def _deser(v):
 
 
 # ---- independence of parent and child ------------------------------------------
-OPS = ['add', 'rename', 'remove', 'circ', 'kron']
+OPS = ['add', 'rename', 'remove', 'circ', 'kron', 'kronprop']
 
 
 def _snap(cat):
@@ -361,16 +364,21 @@ def _do(cat, op, k):
     elif op == 'circ':
         cat.circular_photometry(2.0 + k, name=f'c{k}')
     elif op == 'kron':
-        cat.kron_photometry((2.5, 1.4 + 0.1 * k), name=f'k{k}')
+        cat.kron_photometry((2.5, 0.1 + 0.7 * (k % 2)), name=f'k{k}')
+    elif op == 'kronprop':
+        # the Kron properties with the catalog's own kron_params
+        cat.kron_radius, cat.kron_flux, cat.kron_fluxerr
 
 
-def _check_indep(idx, seq):
+def _check_indep(idx, seq, preread=False, scene='mixed'):
     """seq: list of (target, op).  -> None or message."""
-    make = _scene('mixed')
+    make = _scene(scene)
     cat = make()
     with warnings.catch_warnings():
         warnings.simplefilter('ignore')
         cat.add_extra_property('base', np.arange(cat.nlabels) * 1.0)
+        if preread:
+            cat.kron_radius, cat.kron_flux     # cached before indexing
         child = cat[idx]
         objs = dict(parent=cat, child=child)
         for k, (target, op) in enumerate(seq):
@@ -385,6 +393,32 @@ def _check_indep(idx, seq):
             except Exception as e:  # noqa
                 return (f'after {op} on {target}: {other}.to_table raised '
                         f'{e!r}')
+            if op == 'kronprop':
+                fresh = make()
+                if target == 'child':
+                    fresh = fresh[idx]
+                for col in ('kron_radius', 'kron_flux', 'kron_fluxerr'):
+                    a = np.atleast_1d(np.asarray(getattr(objs[target], col)))
+                    b = np.atleast_1d(np.asarray(getattr(fresh, col)))
+                    if not np.allclose(a, b, rtol=1e-10, atol=0,
+                                       equal_nan=True):
+                        return (f'{col} of {target} = {a} but a fresh '
+                                f'catalog gives {b}')
+            if op in ('circ', 'kron'):
+                # what the method reports must be what a fresh catalog
+                # (same index) reports for the same call
+                fresh = make()
+                if target == 'child':
+                    fresh = fresh[idx]
+                _do(fresh, op, k + 1)
+                nm = ('c' if op == 'circ' else 'k') + str(k + 1)
+                for col in (nm + '_flux', nm + '_fluxerr'):
+                    a = np.atleast_1d(np.asarray(getattr(objs[target], col)))
+                    b = np.atleast_1d(np.asarray(getattr(fresh, col)))
+                    if not np.allclose(a, b, rtol=1e-10, atol=0,
+                                       equal_nan=True):
+                        return (f'{op} on {target}: {col} = {a} but a fresh '
+                                f'catalog gives {b}')
             if before[0] != after[0]:
                 return (f'after {op} on {target}: {other}.extra_properties '
                         f'{before[0]} -> {after[0]}')
@@ -400,9 +434,11 @@ def _run_indep(case):
     samples = []
 
     def fn(ctx):
-        ik = ctx.choice('ikind', ['slice', 'list', 'bool'])
-        idx = {'slice': slice(0, 3), 'list': [2, 0],
-               'bool': np.array([True, False, True, True])}[ik]
+        ik = ctx.choice('ikind', ['slice', 'list', 'bool', 'int'])
+        idx = {'slice': slice(1, 4), 'list': [3, 0],
+               'bool': np.array([True, False, True, True]), 'int': 3}[ik]
+        preread = ctx.flag('preread')
+        scene = case.get('scene', 'mixed')
         seq = []
         for k in range(case['len']):
             t = ctx.choice(f't{k}', ['parent', 'child'])
@@ -410,14 +446,15 @@ def _run_indep(case):
             seq.append((t, op))
         ctx.stats.obligations += 1
         cnt['n'] += 1
-        msg = _check_indep(idx, seq)
+        msg = _check_indep(idx, seq, preread, scene)
         if msg is None:
             ctx.stats.unsat += 1
         else:
             ctx.stats.sat += 1
-            ctx.find(f'independence:{seq[-1][1]}', f'index {ik}, ops {seq}: '
-                     + msg, ctx.witness(),
-                     params=dict(kind='indep', idx=_ser(idx), seq=seq))
+            ctx.find(f'independence:{seq[-1][1]}', f'index {ik}, preread '
+                     f'{preread}, ops {seq}: ' + msg, ctx.witness(),
+                     params=dict(kind='indep', idx=_ser(idx), seq=seq,
+                                 preread=preread, scene=scene))
         if len(samples) < 2:
             samples.append(dict(index=ik, seq=seq))
 
@@ -460,13 +497,16 @@ def cases(tier, seed):
                    twin=True))
     cs.append(dict(kind='indep', name='independence-len1', len=1))
     cs.append(dict(kind='indep', name='independence-len2', len=2))
+    cs.append(dict(kind='indep', name='independence-kron3-len2', len=2,
+                   scene='mixed-kron3'))
     return cs
 
 
 def replay(f):
     p = f['params']
     if p['kind'] == 'indep':
-        msg = _check_indep(_deser(p['idx']), [tuple(s) for s in p['seq']])
+        msg = _check_indep(_deser(p['idx']), [tuple(s) for s in p['seq']],
+                           bool(p.get('preread')), p.get('scene', 'mixed'))
         return msg is not None, str(msg)
     bad = _check_index(p['scene'], p['ikind'], _deser(p['idx']), p['pre'],
                        p['scalar'])
